@@ -85,7 +85,7 @@ def audit_sources():
     return hits
 
 
-def build(pid, log):
+def build(pid, log, tables=("Generated.v",)):
     """Regenerate tables, rebuild model/oracle, re-check props/<pid>.v.
     Returns dict(broken=[names], theorems=[names], assumptions=text, obligations, discharged)."""
     broken = []
@@ -99,11 +99,14 @@ def build(pid, log):
         env["PYTHONHASHSEED"] = "0"
         rc, out = sh(f"{PY} {VERIF}/gen/gen_tables.py {COQ}/model/Generated.v", env=env, timeout=120)
         log.append(out.strip())
-        translator_ok = (rc == 0)
-        if not translator_ok:
-            broken.append("translator: " + out.strip().splitlines()[-1][:300] if out.strip() else "translator failed")
-        if not os.path.exists(os.path.join(COQ, "Makefile.coq")):
-            sh("coq_makefile -f _CoqProject -o Makefile.coq", cwd=COQ)
+        failed = re.findall(r"^TRANSLATOR-SECTION-FAILED (\S+)", out, re.M)
+        mine = [f for f in failed if f == "*" or f in tables]
+        if mine or (rc != 0 and not failed):
+            why = " | ".join(l for l in out.splitlines() if l.startswith("TRANSLATOR-FAILED"))[:400]
+            broken.append(f"translator: cannot regenerate {mine or 'tables'} from the working tree: {why or out.strip()[-300:]}")
+        rc, out = sh(f"{PY} {VERIF}/tools/genproject.py", timeout=120)
+        if rc != 0:
+            broken.append("genproject: " + out.strip()[-300:])
         rc, out = sh("timeout 1500 make -f Makefile.coq -j16 extract/Oracle.vo 2>&1 | tail -40", cwd=COQ)
         oracle_vo = os.path.join(COQ, "extract", "Oracle.vo")
         if "Error" in out or not os.path.exists(oracle_vo):
@@ -245,7 +248,7 @@ def main():
     if mode == "--replay":
         path = sys.argv[3]
         rec = json.load(open(path))
-        info = build(pid, log)
+        info = build(pid, log, getattr(mod, "TABLES", ("Generated.v",)))
         ctx = Ctx(pid, "quick", seed)
         if rec.get("kind") == "obligation":
             still = bool(info["broken"])
@@ -257,7 +260,7 @@ def main():
 
     tier = mode if mode in ("quick", "thorough") else "quick"
     ctx = Ctx(pid, tier, seed)
-    info = build(pid, log)
+    info = build(pid, log, getattr(mod, "TABLES", ("Generated.v",)))
     broken = list(info["broken"])
     res = None
     if os.path.exists(os.path.join(VERIF, "bin", "oracle")):
